@@ -447,6 +447,19 @@ func ruleKeyedStores(r *Run) {
 					if !ok || s.setField == "" {
 						return
 					}
+					// a stored value that has no label-set field at all (the group is identified
+					// by the key alone) has nothing to keep consistent with the key
+					if vst := derefStruct(mt.Elem()); vst != nil {
+						carries := false
+						for i := 0; i < vst.NumFields(); i++ {
+							if canonName(vst.Field(i)) == s.setField || types.Identical(vst.Field(i).Type(), X.Type()) {
+								carries = true
+							}
+						}
+						if !carries {
+							return
+						}
+					}
 					// the stored value's label-set field derives from X
 					if !valueCarriesSet(x.Value, s.setField, X) {
 						bad = true
